@@ -156,6 +156,10 @@ pub enum Op {
     QuoteThenSwap {
         pair: usize,
         offer: AssetAmt,
+        /// 0: plain swap; 1: with max_spread = 1; 2: with belief_price = quoted price and
+        /// max_spread = 0.5 (guards that cannot reject the quoted trade)
+        #[serde(default)]
+        guarded: u8,
     },
     /// pair ReverseSimulation (C12.b/c)
     ReverseQuote {
